@@ -212,4 +212,4 @@ def check(ck):
           "call_batch does not submit exactly the reference list it built from kwargs_list (deduplicated / filtered / re-ordered): a body that "
           "batches [a, b, a] gets two invocations recorded instead of three", cb.where())
     from .c11 import check_decoders_pure
-    check_decoders_pure(ck, "C10.R6")
+    ck.run(check_decoders_pure, ck, "C10.R6")
